@@ -151,15 +151,17 @@ func (o *failOptions) run() error {
 
 	newCanaryERS := canaryERS.DeepCopy()
 
-	newCanaryERS.Status.Conditions = append(
-		newCanaryERS.Status.Conditions,
-		conditions.NewExtendedDaemonSetReplicaSetCondition(
-			v1alpha1.ConditionTypeCanaryFailed,
-			conditions.BoolToCondition(true),
-			metav1.Now(),
-			"Manually failed",
-			"",
-			true),
+	// Set the condition in place when the replica set already carries one (a replica set that failed
+	// before and is the canary again): a second condition of the same type would never be read.
+	conditions.UpdateExtendedDaemonSetReplicaSetStatusCondition(
+		&newCanaryERS.Status,
+		metav1.Now(),
+		v1alpha1.ConditionTypeCanaryFailed,
+		conditions.BoolToCondition(true),
+		"Manually failed",
+		"",
+		false,
+		true,
 	)
 	if err = o.client.Status().Update(context.TODO(), newCanaryERS); err != nil {
 		return fmt.Errorf("unable to update ERS status, err: %w", err)
